@@ -309,14 +309,12 @@ Proof.
     f_equal. apply E1. rewrite Forall_forall in Hcells. apply Hcells. eapply assoc_get_in_snd; eassumption.
 Qed.
 
-(* the value pluck stores for one key of an object receiver *)
+(* the value pluck stores for one key of an object receiver: the receiver's OWN value,
+   null for every key that is not an own key (also for the method names "length"/"pluck") *)
 Definition pluck_value (h : heap) (oid0 : positive) (k : value) : value :=
   match assoc_get (to_str k) (get_obj h oid0) with
-  | Some c => load h c                                   (* the receiver's own value *)
-  | None => match obj_proto (to_str k) with
-            | Some n => VNative n None                   (* "length" / "pluck": the prototype's method *)
-            | None => VNil None                          (* absent: null *)
-            end
+  | Some c => load h c
+  | None => VNil None
   end.
 Definition is_key (k : value) : bool := match k with VNum _ | VStr _ => true | _ => false end.
 
